@@ -65,4 +65,28 @@ ScanFrom(secret, Bspend, labelTweaks, outs, k, acc) ==
 Scan(bscan, Bspend, labelTweaks, A, outpoints, outs) ==
   ScanFrom(RMul(K1, bscan, RMul(K1, InputHash(outpoints, A), A)), Bspend, labelTweaks, outs, 0, << >>)
 SpendKeyOpens(bspend, tweak, output) == XBytes(K1, RMulG(K1, BAddMod(bspend, tweak, K1.n)).x) = output
+\* ---- BIP352: the public key an input contributes, or none (the input is skipped) ----
+\* p2tr: the OUTPUT key, lifted to even y, whether the spend was a key path or a script path; the annex -- a last witness item that STARTS with 0x50, of
+\* whatever length, when there are at least two items -- is not part of the spend; a script path whose internal key is BIP341's NUMS point is skipped.
+\* p2wpkh and p2sh-p2wpkh: the last witness item when it is a compressed key; p2pkh: the last 33-octet window of the scriptSig that hashes to the
+\* output's key hash and is a compressed key.  Anything else is skipped.
+SpNums == FromHex("50929b74c1a04954b78b4b6035e97a5e078a5a0f28ec96d547bfee9ace803ac0")
+SpNone == [none |-> TRUE]
+SpKey(P) == IF P.inf THEN SpNone ELSE [none |-> FALSE, x |-> P.x, y |-> P.y]
+SpCompressed(b) == IF Len(b) = 33 /\ b[1] \in {2, 3} THEN SpKey(LET P == LiftX(K1, BFromBytes(SubSeq(b, 2, 33))) IN IF P.inf \/ b[1] = 2 THEN P ELSE ECR!Neg(K1, P)) ELSE SpNone
+RECURSIVE SpP2pkhFrom(_, _, _)
+SpP2pkhFrom(h, sig, end) == IF end < 33 THEN SpNone
+                            ELSE LET cand == SubSeq(sig, end - 32, end)  k == IF Hash160(cand) = h THEN SpCompressed(cand) ELSE SpNone IN
+                                 IF ~k.none THEN k ELSE SpP2pkhFrom(h, sig, end - 1)
+SpInputKey(spk, sig, wit) ==
+  IF Len(spk) = 34 /\ spk[1] = 81 /\ spk[2] = 32 THEN
+       LET st == IF Len(wit) > 1 /\ Len(wit[Len(wit)]) >= 1 /\ wit[Len(wit)][1] = 80 THEN SubSeq(wit, 1, Len(wit) - 1) ELSE wit IN
+       IF Len(st) = 0 THEN SpNone
+       ELSE IF Len(st) > 1 /\ Len(st[Len(st)]) >= 33 /\ SubSeq(st[Len(st)], 2, 33) = SpNums THEN SpNone
+       ELSE SpKey(LiftX(K1, BFromBytes(SubSeq(spk, 3, 34))))
+  ELSE IF Len(spk) = 22 /\ spk[1] = 0 /\ spk[2] = 20 THEN (IF Len(wit) = 0 THEN SpNone ELSE SpCompressed(wit[Len(wit)]))
+  ELSE IF Len(spk) = 23 /\ spk[1] = 169 /\ spk[2] = 20 /\ spk[23] = 135 THEN
+       (IF Len(sig) = 23 /\ sig[1] = 22 /\ sig[2] = 0 /\ sig[3] = 20 /\ Len(wit) > 0 THEN SpCompressed(wit[Len(wit)]) ELSE SpNone)
+  ELSE IF Len(spk) = 25 /\ SubSeq(spk, 1, 3) = <<118, 169, 20>> /\ SubSeq(spk, 24, 25) = <<136, 172>> THEN SpP2pkhFrom(SubSeq(spk, 4, 23), sig, Len(sig))
+  ELSE SpNone
 =============================================================================
